@@ -41,6 +41,16 @@ def build_chain(cs, tier):
         h = c08.deep_history(g, cfg, cs)
         ops0 = list(h.ops)
         h.sess.close()
+    elif cs % 16 == 10:
+        # layouts at sector and path-table boundaries before the parse; the edits afterwards move them across
+        which = common.SPECIALS[(cs // 16) % len(common.SPECIALS)]
+        cfg, sops = common.special_layout(g, which)
+        h = common.History(cfg, cs, 'churn', max_size=5000)
+        for op in sops:
+            if op['op'] != 'reopen':
+                h.apply(op)
+        ops0 = list(h.ops)
+        h.sess.close()
     else:
         cfg = g.cfg(index=cs)
         if cs % 3 == 2:
